@@ -52,7 +52,10 @@ Inductive value :=
 | VList (vs : list value).
 
 (* ---------- contexts and guards ---------- *)
-Record ctx := mkctx { cver : Z; ccb : bool (* direction = ClientBound *) }.
+(* ctag is the value of the enclosing tagged choice's tag (LTag sets it for its body, LSel tests it); it is 0 outside *)
+Record ctx := mkctx3 { cver : Z; ccb : bool (* direction = ClientBound *); ctag : Z }.
+Definition mkctx (v : Z) (cb : bool) : ctx := mkctx3 v cb 0.
+Definition set_tag (c : ctx) (z : Z) : ctx := mkctx3 (cver c) (ccb c) z.
 
 Inductive guard :=
 | GTrue
@@ -135,7 +138,15 @@ Section Layout.
   | LOpt (f : fexpr) (a b : layout)          (* one bool on the wire; true -> a, false -> b *)
   | LRep (f : fexpr) (o : repopts) (a : layout)   (* VarInt count, then count times a *)
   | LRest (f : fexpr) (lim : option N)       (* all remaining bytes (io.ReadAll); more than lim => error *)
-  | LConst (p : prim F) (k : atom).          (* encoder writes the constant k; decoder reads and drops it *)
+  | LConst (p : prim F) (k : atom)           (* encoder writes the constant k; decoder reads and drops it *)
+  (* tagged choice (a Go `switch p.Action` / `if p.ID == 0` on a field that was just written / read):
+     LTag writes / reads the integer tag with primitive p and runs its body with the tag remembered in the context;
+     LSel k a b inside that body continues with a when the tag equals k, else with b; LFail is the branch of a tag
+     the code rejects (encoder and decoder both return an error).
+     LCase f p [(k1,a1);...;(kn,an)] d  is written  LTag f p (LSel k1 a1 (... (LSel kn an d))) *)
+  | LTag (f : fexpr) (p : prim F) (body : layout)
+  | LSel (k : Z) (a b : layout)
+  | LFail.
 
   (* ----- encoding ----- *)
   Fixpoint enc_all (f : value -> res bytes) (vs : list value) : res bytes :=
@@ -169,6 +180,14 @@ Section Layout.
         end
     | LRest _ _ => match v with VAtom (ABytes bs) => Ok bs | _ => Err EShape end
     | LConst p k => match v with VUnit => enc_prim F p k | _ => Err EShape end
+    | LTag _ p body =>
+        match v with
+        | VPair (VAtom (AZ z)) x =>
+            bind (enc_prim F p (AZ z)) (fun b1 => bind (enc_L body (set_tag c z) x) (fun b2 => Ok (b1 ++ b2)))
+        | _ => Err EShape
+        end
+    | LSel k a b => if ctag c =? k then enc_L a c v else enc_L b c v
+    | LFail => Err EDomain
     end.
 
   (* ----- decoding, with the allocation units requested so far -----
@@ -235,6 +254,18 @@ Section Layout.
     | LConst p _ =>
         (alloc_prim F p bs,
          match dec_prim F p bs with Ok (_, rest) => Ok (VUnit, rest) | Err e => Err e end)
+    | LTag _ p body =>
+        match dec_prim F p bs with
+        | Ok (AZ z, rest) =>
+            match dec_T body (set_tag c z) rest with
+            | (n, Ok (x, rest')) => ((alloc_prim F p bs + n)%N, Ok (VPair (VAtom (AZ z)) x, rest'))
+            | (n, Err e) => ((alloc_prim F p bs + n)%N, Err e)
+            end
+        | Ok (_, _) => (alloc_prim F p bs, Err EFormat)
+        | Err e => (alloc_prim F p bs, Err e)
+        end
+    | LSel k a b => if ctag c =? k then dec_T a c bs else dec_T b c bs
+    | LFail => (0%N, Err EFormat)
     end.
 
   Definition dec_L (l : layout) (c : ctx) (bs : bytes) : res (value * bytes) := snd (dec_T l c bs).
@@ -249,6 +280,8 @@ Section Layout.
     | LVer g a b => if eval_guard g c then resolve a c else resolve b c
     | LOpt f a b => LOpt f (resolve a c) (resolve b c)
     | LRep f o a => LRep f o (resolve a c)
+    | LTag f p a => LTag f p (resolve a c)
+    | LSel k a b => LSel k (resolve a c) (resolve b c)
     | _ => l
     end.
 
@@ -263,6 +296,9 @@ Section Layout.
     | LRep f _ a, LRep g _ a' => fexpr_eqb f g && layout_eqb a a'
     | LRest f _, LRest g _ => fexpr_eqb f g
     | LConst p k, LConst q k' => prim_eqb F p q && atom_eqb k k'
+    | LTag f p a, LTag g q a' => fexpr_eqb f g && prim_eqb F p q && layout_eqb a a'
+    | LSel k a b, LSel k' a' b' => (k =? k') && layout_eqb a a' && layout_eqb b b'
+    | LFail, LFail => true
     | _, _ => false
     end.
 
@@ -276,6 +312,8 @@ Section Layout.
     | LOpt _ a b => norest a c && norest b c
     | LRep _ _ a => norest a c
     | LRest _ _ => false
+    | LTag _ _ a => norest a c
+    | LSel _ a b => norest a c && norest b c
     | _ => true
     end.
 
@@ -290,6 +328,9 @@ Section Layout.
     | LRep _ _ _ => 1
     | LRest _ _ => 0
     | LConst p _ => prim_min F p
+    | LTag _ p a => prim_min F p + minsz a c
+    | LSel _ a b => N.min (minsz a c) (minsz b c)
+    | LFail => 1            (* never decodes successfully: any bound holds *)
     end%N.
 
   (* well-formed at a context: ReadAll only in tail position, loop bodies consume >= 1 byte *)
@@ -299,6 +340,8 @@ Section Layout.
     | LVer g a b => if eval_guard g c then wf a c else wf b c
     | LOpt _ a b => wf a c && wf b c
     | LRep _ _ a => wf a c && norest a c && (1 <=? minsz a c)%N
+    | LTag _ _ a => wf a c
+    | LSel _ a b => wf a c && wf b c
     | _ => true
     end.
 
@@ -312,6 +355,8 @@ Section Layout.
     | LVer g a b => if eval_guard g c then scost a c else scost b c
     | LOpt _ a b => scost a c + scost b c
     | LRest _ _ => 512
+    | LTag _ _ a => scost a c
+    | LSel _ a b => scost a c + scost b c
     | _ => 0
     end%N.
 
@@ -325,6 +370,9 @@ Section Layout.
     | LRep _ _ a => kcost a c + scost a c + 2
     | LRest _ _ => 2
     | LConst _ _ => ka
+    | LTag _ _ a => ka + kcost a c
+    | LSel _ a b => kcost a c + kcost b c
+    | LFail => 0
     end%N.
 
   Fixpoint ucost (l : layout) (c : ctx) : N :=
@@ -337,6 +385,9 @@ Section Layout.
     | LRep _ o a => rpre o + ucost a c
     | LRest _ _ => 512
     | LConst p _ => prim_cap F p
+    | LTag _ p a => prim_cap F p + ucost a c
+    | LSel _ a b => ucost a c + ucost b c
+    | LFail => 0
     end%N.
 End Layout.
 
@@ -348,3 +399,6 @@ Arguments LOpt {F}.
 Arguments LRep {F}.
 Arguments LRest {F}.
 Arguments LConst {F}.
+Arguments LTag {F}.
+Arguments LSel {F}.
+Arguments LFail {F}.
